@@ -49,6 +49,10 @@ def initial_cases(tier, seed):
             cases.append({"kind": "count", "fam": fam, "sl": sl, "rho_mult": rm, "nspin": nspin, "seed": seed})
     for name in INVALID:
         cases.append({"kind": "invalid", "ctor": name, "seed": seed})
+    # index-pair lattice: list lengths varied independently so that "which list bounds this index" is decided
+    for ctor in ("VI", "VIJ", "FracLapl-l1", "FracLapl-ld"):
+        for n0, n1, n2 in itertools.product((1, 2, 3), repeat=3):
+            cases.append({"kind": "dots", "ctor": ctor, "n0": n0, "n1": n1, "n2": n2, "seed": seed})
     for team in (1, 3):
         for part in range(8):
             cases.append({"kind": "asan", "team": team, "part": part, "nparts": 8, "tier": tier, "seed": seed})
@@ -397,6 +401,61 @@ def run_invalid(case):
     return {"fail": fails, "evals": len(table), "outcome": [name, len(table)]}
 
 
+def run_dots(case):
+    """Every index pair (a, b) in {-2..3}^2 for every combination of list lengths: accepted iff -1 <= a, b < number of
+    vector specs the pair indexes (documented: 'indexes j,k for features to contract, -1 refers to the density gradient');
+    an accepted object must have consistent bookkeeping."""
+    from ciderpress.dft import settings as S
+
+    fails = []
+    ctor, n0, n1, n2 = case["ctor"], case["n0"], case["n1"], case["n2"]
+    ck = "ctor=%s;n0=%d;n1=%d;n2=%d" % (ctor, n0, n1, n2)
+    L0 = ["se_r2", "se_apr2", "se_ap"][:n0]
+    L1 = ["se_grad", "se_rvec", "se_grad"][:n1]
+    J = ["se", "se_ar2", "se_a2r4"][:n2]
+    JP = [[2.0, 0.06, 0.04], [0.5, 0.016, 0.01], [1.0, 0.03, 0.02]][:n2]
+    th = [1.0, 0.03, 0.02]
+    if ctor == "VI":
+        nvec = n1
+        make = lambda d: S.NLDFSettingsVI("MGGA", th, "one", L0, L1, [d])
+    elif ctor == "VIJ":
+        nvec = n1
+        make = lambda d: S.NLDFSettingsVIJ("MGGA", th, "one", L0, L1, [d], J, JP)
+    elif ctor == "FracLapl-l1":
+        # slist of 3 powers, nk0 = n0 scalar, nk1 = n1 vector, nd1 = n2 derivative-vector features
+        nvec = n1
+        make = lambda d: S.FracLaplSettings([-0.5, 0.5, 1.0], n0, n1, [d], nd1=n2, ld_dots=[], ndd=0)
+    else:
+        nvec = n2
+        make = lambda d: S.FracLaplSettings([-0.5, 0.5, 1.0], n0, n1, [], nd1=n2, ld_dots=[d], ndd=0)
+    ntry = 0
+    for a, b in itertools.product(range(-2, 4), repeat=2):
+        ok = -1 <= a < nvec and -1 <= b < nvec
+        ntry += 1
+        try:
+            st = make((a, b))
+        except Exception as e:
+            if ok:
+                fails.append({"key": "valid-rejected;%s" % ck, "msg": "index pair (%d, %d) is valid for %d vector specs but was rejected: %s: %s" % (a, b, nvec, type(e).__name__, str(e)[:100])})
+            continue
+        if not ok:
+            fails.append({"key": "accepted;%s;index pair" % ck, "msg": "invalid index pair (%d, %d) accepted with %d vector specs (list lengths l0=%d, l1=%d, third=%d)" % (a, b, nvec, n0, n1, n2)})
+            continue
+        try:
+            n = st.nfeat
+            lens = {"usps": len(st.get_feat_usps())}
+            try:
+                lens["ueg"] = len(st.ueg_vector())
+            except NotImplementedError:
+                pass
+            for k, v in lens.items():
+                if v != n:
+                    fails.append({"key": "length;%s;%s" % (k, ck), "msg": "len(%s) = %d but nfeat = %d for pair (%d, %d)" % (k, v, n, a, b)})
+        except Exception as e:
+            fails.append({"key": "accessor-raises;dots;%s;%s" % (type(e).__name__, ck), "msg": "accepted pair (%d, %d): %s: %s" % (a, b, type(e).__name__, str(e)[:100])})
+    return {"fail": fails, "evals": ntry, "outcome": [ck, ntry]}
+
+
 # ----------------------------------------------------------------------------- memory safety
 def run_asan(case):
     from mc.boot import VERIF, det_env
@@ -446,6 +505,8 @@ def run_case(case):
         return run_count(case)
     if k == "invalid":
         return run_invalid(case)
+    if k == "dots":
+        return run_dots(case)
     return run_asan(case)
 
 
